@@ -33,7 +33,7 @@ MANIFEST = {
             "its array, and execution on separate memory, are NOT decided.",
     "technique": "exhaustive evaluation of a decision chain over a finite "
                  "boolean domain + def-use of the result tuple + "
-                 "obligation table",
+                 "obligation table + refusal-weakening check against the reviewed guard snapshot",
 }
 ATOMS = {"var_info.has_read_write(sig)": "rw",
          "var_info.is_read(sig)": "r",
